@@ -1,6 +1,13 @@
 """C18: codec key tables of the four detector classes, Photon's sub-keys, the ASDF backend's pass-through
 shape and the body shape of `load_detector`  ->  Gen_C18.v  (fail closed on every other shape).
 
+Every function is read in the NORMAL FORM computed by translator/c18_norm.py (general, behaviour-preserving rewrites:
+module-level constants resolved, private helpers of the package inlined, single-binding local aliases and named
+intermediate results substituted, match / local dispatch dict -> if chain, guard clauses, filling loops -> comprehensions,
+conditional assignments -> conditional expressions, loops over literal tuples unrolled, getattr/setattr with literal
+names, annotations / docstrings / logging dropped), so that a refactoring of those kinds yields the same table; every
+shape the normal form does not reduce to the ones below still fails closed.
+
 Extracted (nothing else is believed about the code):
   * T.to_dict      : the dict literal: "type" tag, keys under "properties" (<- which attribute), keys under
                      "data" (<- which container attribute, which key.replace(a, b) escaping)
@@ -19,7 +26,27 @@ from __future__ import annotations
 import ast
 from pathlib import Path
 
-from .common import HEADER, body_no_doc, fail, find_func, parse
+from harness.core import TranslationError
+
+from .c18_norm import Normalizer
+from .common import HEADER, body_no_doc, fail
+
+
+class _Src:
+    """the functions the reader looks at, each in NORMAL FORM (translator/c18_norm.py: module constants resolved, private
+    helpers inlined, single-binding aliases substituted, match -> if, guard-clause form, filling loops -> comprehensions,
+    conditional assignments -> conditional expressions, annotations / logging / docstrings ignored)."""
+
+    def __init__(self, repo):
+        self.norm = Normalizer(Path(repo))
+
+    def func(self, rel, name, cls=None) -> ast.FunctionDef:
+        if self.norm.module(rel) is None:
+            raise TranslationError(f"{rel}: file not found or not parsable")
+        fn = self.norm.func(rel, name, cls)
+        if fn is None:
+            raise TranslationError(f"{rel}: function {cls + '.' if cls else ''}{name}: not found exactly once")
+        return fn
 
 KINDS = [("CCD", "pyxel/detectors/ccd/ccd.py"), ("CMOS", "pyxel/detectors/cmos/cmos.py"),
          ("MKID", "pyxel/detectors/mkid/mkid.py"), ("APD", "pyxel/detectors/apd/apd.py")]
@@ -143,13 +170,14 @@ def tr_to_dict(fn: ast.FunctionDef):
         key = _s(k)
         inner = v
         if isinstance(v, ast.IfExp):
-            # None if self._x is None else <expr>
-            t = v.test
-            if not (isinstance(t, ast.Compare) and len(t.ops) == 1 and isinstance(t.ops[0], ast.Is)
-                    and isinstance(t.comparators[0], ast.Constant) and t.comparators[0].value is None
-                    and isinstance(v.body, ast.Constant) and v.body.value is None):
-                fail(v, "conditional entry must be `None if self._x is None else ...`")
-            inner = v.orelse
+            # None if <test on the same container> else <expr>   (or the other way round: <expr> if <test> else None)
+            none_first = isinstance(v.body, ast.Constant) and v.body.value is None
+            none_last = isinstance(v.orelse, ast.Constant) and v.orelse.value is None
+            if none_first == none_last:
+                fail(v, "conditional entry must be `None if <test> else ...` or `... if <test> else None`")
+            if any(isinstance(n, (ast.Call, ast.NamedExpr)) for n in ast.walk(v.test)):
+                fail(v, "the test of a conditional entry must only look at the container")
+            inner = v.orelse if none_first else v.body
         if isinstance(inner, ast.Dict):
             # nested dict: {"array": self._charge.array..., "frame": self._charge.frame...}
             for k2, v2 in zip(inner.keys, inner.values):
@@ -164,11 +192,18 @@ def tr_to_dict(fn: ast.FunctionDef):
                 fail(v, "nested entry mixes containers")
             continue
         ok_shape = (
-            (isinstance(inner, ast.Call) and isinstance(inner.func, ast.Attribute) and inner.func.attr == "to_dict")
+            # self.<c>.to_dict() / self._<c>.array.copy(): a method of the container (or of a part of it), no argument
+            (isinstance(inner, ast.Call) and isinstance(inner.func, ast.Attribute) and not inner.args and not inner.keywords
+             and (_attr_chain(inner.func.value) or [None])[0] == "self")
+            # <helper>(self._<c>): a helper that could not be inlined, applied to the container alone
             or (isinstance(inner, ast.Call) and isinstance(inner.func, ast.Name)
-                and inner.func.id == "_get_array_if_initialized" and len(inner.args) == 1)
+                and inner.func.id == "_get_array_if_initialized" and len(inner.args) == 1 and not inner.keywords)
+            # {key.replace(a, b): value for key, value in self._<c>.to_dict().items()}: every entry, the value unchanged
             or (isinstance(inner, ast.DictComp) and isinstance(inner.value, ast.Name)
-                and len(inner.generators) == 1 and not inner.generators[0].ifs)
+                and len(inner.generators) == 1 and not inner.generators[0].ifs
+                and isinstance(inner.generators[0].target, ast.Tuple) and len(inner.generators[0].target.elts) == 2
+                and isinstance(inner.generators[0].target.elts[1], ast.Name)
+                and inner.generators[0].target.elts[1].id == inner.value.id)
         )
         if not ok_shape:
             fail(v, "unsupported data entry shape")
@@ -214,6 +249,17 @@ class _FromDict:
             return None
         if isinstance(e, ast.NamedExpr):
             return self.path(e.value)
+        return None
+
+    def prop_key(self, e):
+        """a local holding X.from_dict(dct['properties'][k]), or that call itself -> k."""
+        if isinstance(e, ast.Name):
+            return self.pvars.get(e.id)
+        if isinstance(e, ast.Call) and isinstance(e.func, ast.Attribute) and e.func.attr == "from_dict" \
+                and len(e.args) == 1 and not e.keywords:
+            p = self.path(e.args[0])
+            if p is not None and len(p) == 2 and p[0] == "properties":
+                return p[1]
         return None
 
     def paths_in(self, expr):
@@ -309,9 +355,10 @@ class _FromDict:
                     if val.args:
                         fail(val, "cls(...) must use keywords")
                     for kw in val.keywords:
-                        if kw.arg not in PFIELD or not isinstance(kw.value, ast.Name) or kw.value.id not in self.pvars:
+                        key = self.prop_key(kw.value)
+                        if kw.arg not in PFIELD or key is None:
                             fail(val, "cls(...) argument must be a value built from dct['properties'][...]")
-                        self.pread.append((PFIELD[kw.arg], self.pvars[kw.value.id]))
+                        self.pread.append((PFIELD[kw.arg], key))
                     self.det = tgt.id
                     return
                 p = self.path(val)
@@ -319,12 +366,9 @@ class _FromDict:
                     self.alias[tgt.id] = ("dct", p)
                     return
                 # X.from_dict(properties["k"])
-                if isinstance(val, ast.Call) and isinstance(val.func, ast.Attribute) and val.func.attr == "from_dict" \
-                        and len(val.args) == 1 and not val.keywords:
-                    p = self.path(val.args[0])
-                    if p is not None and len(p) == 2 and p[0] == "properties":
-                        self.pvars[tgt.id] = p[1]
-                        return
+                if not isinstance(val, ast.Name) and self.prop_key(val) is not None:
+                    self.pvars[tgt.id] = self.prop_key(val)
+                    return
                 # harmless local derived from the new detector (previous_frame = detector.charge._frame)
                 ch = _attr_chain(val)
                 if ch and ch[0] == self.det:
@@ -345,14 +389,23 @@ class _FromDict:
         return self.guard, self.pread, self.read
 
 
-def tr_dispatch(tree):
-    fn = find_func(tree, "from_dict", cls="Detector")
-    body = body_no_doc(fn)
-    if len(body) != 1 or not isinstance(body[0], ast.If):
-        fail(fn, "Detector.from_dict must be one if/elif chain")
-    node, out = body[0], []
-    while True:
+def tr_dispatch(fn):
+    """normal form of an if/elif/else chain (= match statement = early returns):
+       if dct['type'] == '<tag>': [import]; return X.from_dict(dct)   ...   raise"""
+    body = [s for s in body_no_doc(fn) if not isinstance(s, (ast.Import, ast.ImportFrom))]
+    if len(body) < 2 or not all(isinstance(s, ast.If) for s in body[:-1]) or not isinstance(body[-1], ast.Raise):
+        fail(fn, "Detector.from_dict must be a chain of tests on dct['type'], each returning, followed by raise")
+    out = []
+    allowed = None
+    for node in body[:-1]:
+        if node.orelse:
+            fail(node, "dispatch branch must return")
         t = node.test
+        if isinstance(t, ast.Compare) and len(t.ops) == 1 and isinstance(t.ops[0], ast.NotIn) and not out and allowed is None \
+                and ast.unparse(t.left) == "dct['type']" and isinstance(t.comparators[0], (ast.Tuple, ast.List, ast.Set)) \
+                and len(node.body) == 1 and isinstance(node.body[0], ast.Raise):
+            allowed = [_s(e) for e in t.comparators[0].elts]      # if dct['type'] not in (<tags>): raise
+            continue
         if not (isinstance(t, ast.Compare) and len(t.ops) == 1 and isinstance(t.ops[0], ast.Eq)
                 and ast.unparse(t.left) == "dct['type']"):
             fail(t, "dispatch test must be dct['type'] == '<tag>'")
@@ -369,18 +422,13 @@ def tr_dispatch(tree):
         if cls not in dict(KINDS):
             fail(r, "unknown detector class")
         out.append((tag, cls))
-        if len(node.orelse) == 1 and isinstance(node.orelse[0], ast.If):
-            node = node.orelse[0]
-            continue
-        if len(node.orelse) == 1 and isinstance(node.orelse[0], ast.Raise):
-            break
-        fail(node, "dispatch chain must end with raise")
+    if allowed is not None and sorted(allowed) != sorted(t for t, _ in out):
+        fail(fn, "the tags let through by the membership test are not the tags dispatched on")
     return out
 
 
-def tr_photon(repo):
-    tree = parse(repo, "pyxel/data_structure/photon.py")
-    td = find_func(tree, "to_dict", cls="Photon")
+def tr_photon(S):
+    td = S.func("pyxel/data_structure/photon.py", "to_dict", cls="Photon")
     wk, wesc = {}, None
     for n in ast.walk(td):
         if isinstance(n, ast.Assign) and len(n.targets) == 1 and isinstance(n.targets[0], ast.Subscript) \
@@ -399,7 +447,7 @@ def tr_photon(repo):
             wk["3d" if three_d else "2d"] = key
     if sorted(wk) != ["2d", "3d"]:
         fail(td, "Photon.to_dict must write one 2-D and one 3-D key")
-    fd = find_func(tree, "from_dict", cls="Photon")
+    fd = S.func("pyxel/data_structure/photon.py", "from_dict", cls="Photon")
     ifs = [s for s in body_no_doc(fd) if isinstance(s, ast.If)]
     if len(ifs) != 1:
         fail(fd, "Photon.from_dict must have one if/elif chain")
@@ -441,10 +489,9 @@ def tr_photon(repo):
     return (wk["2d"], wk["3d"]), (rk["2d"][0], rk["3d"][0]), wesc, resc
 
 
-def check_asdf(repo):
+def check_asdf(S):
     """Pass-through shape of the ASDF backend (no table: a changed shape is a translation failure)."""
-    tree = parse(repo, "pyxel/backends/asdf.py")
-    fa = find_func(tree, "from_asdf")
+    fa = S.func("pyxel/backends/asdf.py", "from_asdf")
     copies = {}
     local = {}
     for n in ast.walk(fa):
@@ -466,7 +513,7 @@ def check_asdf(repo):
     src = ast.unparse(fa)
     if "pd.DataFrame(" not in src.replace(" ", ""):
         fail(fa, "from_asdf must rebuild the frame with pd.DataFrame(<dict>)")
-    ta = find_func(tree, "to_asdf")
+    ta = S.func("pyxel/backends/asdf.py", "to_asdf")
     orient = None
     for n in ast.walk(ta):
         if isinstance(n, ast.Call) and isinstance(n.func, ast.Attribute) and n.func.attr == "to_dict" and n.keywords:
@@ -522,9 +569,22 @@ def check_asdf(repo):
     if not (isinstance(c.key, ast.Name) and c.key.id == kname and _plain_to_dict(c.value)
             and isinstance(c.value.func.value, ast.Name) and c.value.func.value.id == vname):
         fail(c, "to_asdf: every entry must be  key: value.to_dict()")
+    # ... read from dct["data"]["data"] and stored back under the same key (directly or through one local each)
+    def _norm(e):
+        return ast.unparse(e).replace(" ", "").replace('"', "'")
+    local_val = {n.targets[0].id: n.value for n in ast.walk(ta)
+                 if isinstance(n, ast.Assign) and len(n.targets) == 1 and isinstance(n.targets[0], ast.Name)}
+    it = g.iter.func.value
+    if isinstance(it, ast.Name) and it.id in local_val:
+        it = local_val[it.id]
+    if _norm(it) != "dct['data']['data']":
+        fail(c, "to_asdf: the comprehension must read dct['data']['data']")
+    back = [n for n in ast.walk(ta) if isinstance(n, ast.Assign) and len(n.targets) == 1
+            and _norm(n.targets[0]) == "dct['data']['data']"]
+    if len(back) != 1 or not (back[0].value is c or (isinstance(back[0].value, ast.Name) and local_val.get(back[0].value.id) is c)):
+        fail(ta, "to_asdf: the converted processed data must be stored back as dct['data']['data']")
     # Scene.to_dict / Scene.from_dict: every group, values as lists, and back
-    sc = parse(repo, "pyxel/data_structure/scene.py")
-    std = find_func(sc, "to_dict", cls="Scene")
+    std = S.func("pyxel/data_structure/scene.py", "to_dict", cls="Scene")
     comps = [n for n in ast.walk(std) if isinstance(n, ast.DictComp)]
     if len(comps) != 1:
         fail(std, "Scene.to_dict must be one dict comprehension")
@@ -536,7 +596,7 @@ def check_asdf(repo):
             and c.value.func.value.id == g.target.elts[1].id
             and ast.unparse(g.iter).replace(" ", "") in ("self.data.to_dict().items()", "self._source.to_dict().items()")):
         fail(c, "Scene.to_dict: every entry must be  key: value.to_dict()  over self.data.to_dict().items()")
-    sfd = find_func(sc, "from_dict", cls="Scene")
+    sfd = S.func("pyxel/data_structure/scene.py", "from_dict", cls="Scene")
     comps = [n for n in ast.walk(sfd) if isinstance(n, ast.DictComp)]
     if len(comps) != 1:
         fail(sfd, "Scene.from_dict must be one dict comprehension")
@@ -548,9 +608,8 @@ def check_asdf(repo):
     if "DataTree.from_dict(" not in ast.unparse(sfd):
         fail(sfd, "Scene.from_dict must rebuild the tree with xr.DataTree.from_dict")
     # Detector.load / save dispatch on the extension
-    det = parse(repo, "pyxel/detectors/detector.py")
     for name, callee in (("load", "from_asdf"), ("save", "to_asdf")):
-        fn = find_func(det, name, cls="Detector")
+        fn = S.func("pyxel/detectors/detector.py", name, cls="Detector")
         hit = False
         for n in ast.walk(fn):
             if isinstance(n, ast.If) and ".asdf" in ast.unparse(n.test) and isinstance(n.test, ast.Compare) \
@@ -562,15 +621,14 @@ def check_asdf(repo):
         if not hit:
             fail(fn, f"Detector.{name} must dispatch '.asdf' to {callee}")
     for name, inner in (("to_asdf", "to_dict"), ("from_asdf", "from_dict")):
-        fn = find_func(det, name, cls="Detector")
+        fn = S.func("pyxel/detectors/detector.py", name, cls="Detector")
         if f".{inner}(" not in ast.unparse(fn) or f"backends.{name}(" not in ast.unparse(fn):
             fail(fn, f"Detector.{name} must go through {inner} and backends.{name}")
     return index_kept
 
 
-def tr_load(repo):
-    tree = parse(repo, "pyxel/models/util.py")
-    fn = find_func(tree, "load_detector")
+def tr_load(S):
+    fn = S.func("pyxel/models/util.py", "load_detector")
     params = [a.arg for a in fn.args.args]
     if params[:2] != ["detector", "filename"]:
         fail(fn, "load_detector signature")
@@ -628,7 +686,7 @@ def tr_load(repo):
     if new is None:
         fail(fn, "load_detector must load a detector from the file")
     # save_detector: the passed detector is written with Detector.save (= to_dict + backend)
-    sv = find_func(tree, "save_detector")
+    sv = S.func("pyxel/models/util.py", "save_detector")
     body = body_no_doc(sv)
     sp = [a.arg for a in sv.args.args]
     if not (sp[:2] == ["detector", "filename"] and len(body) == 1 and isinstance(body[0], ast.Expr)
@@ -654,17 +712,16 @@ def _clist(xs):
 
 
 def extract(repo: Path) -> dict:
-    det_tree = parse(repo, "pyxel/detectors/detector.py")
+    src = _Src(repo)
     out = {"kinds": {}}
     for cls, rel in KINDS:
-        tree = parse(repo, rel)
-        tag, pw, w = tr_to_dict(find_func(tree, "to_dict", cls=cls))
-        guard, pr, r = _FromDict(find_func(tree, "from_dict", cls=cls)).run()
+        tag, pw, w = tr_to_dict(src.func(rel, "to_dict", cls=cls))
+        guard, pr, r = _FromDict(src.func(rel, "from_dict", cls=cls)).run()
         out["kinds"][cls] = dict(tag=tag, pw=pw, w=w, guard=guard, pr=pr, r=r)
-    out["dispatch"] = tr_dispatch(det_tree)
-    out["photon_w"], out["photon_r"], out["photon_esc_w"], out["photon_esc_r"] = tr_photon(repo)
-    out["frame_index_kept"] = check_asdf(repo)
-    out["load_rebinds_only"], out["load_assigned"] = tr_load(repo)
+    out["dispatch"] = tr_dispatch(src.func("pyxel/detectors/detector.py", "from_dict", cls="Detector"))
+    out["photon_w"], out["photon_r"], out["photon_esc_w"], out["photon_esc_r"] = tr_photon(src)
+    out["frame_index_kept"] = check_asdf(src)
+    out["load_rebinds_only"], out["load_assigned"] = tr_load(src)
     return out
 
 
